@@ -8,6 +8,7 @@ source: {"kind": "doc", "doc": <document>} | {"kind": "shipped", "name": n}
 ops   : ("p", k, side, ks)        k-th action the model predicts to change the state
         ("n", c, k, side, ks)     adaptive near-miss: c-th available gate class, k-th action in it
         ("f", i, side, ks)        flat index i mod n
+        ("d", k, side, ks)        depth-first progress: act at / push outwards from the most recently compromised host
         ("r", side, ks)           repeat the previous action
         ("o",)                    no-op (NoOp action object)
         ("x",)                    reset
@@ -82,6 +83,7 @@ class Harness:
         self.fp = spec.fingerprint()
         self.diverged = None
         self.max_depth = 0
+        self.last_comp = None
 
     # ------------------------------------------------------------ helpers
     def obs2d(self, o):
@@ -186,6 +188,9 @@ class Harness:
         if rec.post_t.tobytes() != rec.pre_t.tobytes() and len(self.saved) < 12:
             self.saved.append((self.env.current_state.copy(), dict(self.mst)))
         self.last_act = rec.act
+        if rec.act.kind == "exploit" and rec.pre[rec.act.target][0] is not True \
+           and rec.post[rec.act.target][0] is True:
+            self.last_comp = rec.act.target
         self.max_depth = max(self.max_depth, sum(1 for v in self.mst.values() if v[0]))
 
     def reset(self):
@@ -193,6 +198,7 @@ class Harness:
         self.shadow_steps = 0
         self.ledger = set()
         self.mst = self.spec.initial()
+        self.last_comp = None
         return obs, info
 
     # ------------------------------------------------------------ op -> action
@@ -217,6 +223,31 @@ class Harness:
         kind = op[0]
         if kind == "p":
             cands = [i for i, a in enumerate(self.acts) if M.changes_state(self.spec, mst, a)]
+            if not cands:
+                cands = list(range(n))
+            return self.acts[cands[op[1] % len(cands)]]
+        if kind == "d":
+            # depth-first: stay at the most recently compromised host (scan /
+            # escalate there) or push outwards to hosts that are reachable only
+            # through its subnet
+            last = self.last_comp if mst is self.mst else None
+            cands = []
+            if last is not None and mst[last][0]:
+                comp_subnets = {a[0] for a in self.spec.addrs if mst[a][0] and a[0] != last[0]}
+                for i, a in enumerate(self.acts):
+                    t = a.target
+                    if t == last and a.kind in ("subnet_scan", "privesc"):
+                        pass
+                    elif a.kind == "exploit" and not mst[t][0] and self.spec.conn(last[0], t[0]) \
+                            and not any(self.spec.conn(c, t[0]) for c in comp_subnets) \
+                            and not self.spec.public(t[0]):
+                        pass
+                    else:
+                        continue
+                    if M.changes_state(self.spec, mst, a):
+                        cands.append(i)
+            if not cands:
+                cands = [i for i, a in enumerate(self.acts) if M.changes_state(self.spec, mst, a)]
             if not cands:
                 cands = list(range(n))
             return self.acts[cands[op[1] % len(cands)]]
